@@ -7,6 +7,7 @@ import (
 	"go/ast"
 	"go/token"
 	"go/types"
+	"regexp"
 	"sort"
 	"strconv"
 	"strings"
@@ -111,7 +112,7 @@ func isUserText(key string) string {
 
 func checkC13(c *Ctx) {
 	r := c.R
-	r.Explain = "Decides structural clauses of C13 on the emitted text reconstructed from the generators' syntax tree (emission grammar; every arm of every guard, loops unrolled 0/1/2 times with different arms per iteration; thorough: every pair of arms). R13a every Go variant of every unit parses (go/parser) and the constant server runtime type-checks against the real dependency packages. R13h/R08a every TypeScript variant has balanced delimiters, terminated literals and no block-scoped name declared twice in one block (lexical; TypeScript is not type-checked: no TS front end exists in the sandbox). R13e in every Go variant every import is used and every package qualifier is imported (the client unit is explored with its import-deciding helpers followed, so import decisions and uses are correlated). R13b field-shape compatibility: for each codec emitter and each field shape (kind x singular/optional/oneof-member/repeated) that its collector lets through and that the documented rules accept, the emitted methods are type-checked against a synthesized stand-in for protoc-gen-go's struct (field of the shape's Go type). R13c two features that both declare MarshalJSON on one message must be excluded by a conflict check. R13d schema-author free text printed into string literals/comments must be quoted. R13f identifiers used as Go field selectors must come from protogen's GoName. Not decided: complete type-checking of holed units for arbitrary descriptors beyond the enumerated field-use worlds; TypeScript typing; cross-file duplicate declarations in one Go package."
+	r.Explain = "Decides structural clauses of C13 on the emitted text reconstructed from the generators' syntax tree (emission grammar; every arm of every guard, loops unrolled 0/1/2 times with different arms per iteration; thorough: every pair of arms). R13a every Go variant of every unit parses (go/parser) and the constant server runtime type-checks against the real dependency packages. R13h/R08a every TypeScript variant has balanced delimiters, terminated literals and no block-scoped name declared twice in one block (lexical; TypeScript is not type-checked: no TS front end exists in the sandbox). R13e in every Go variant every import is used and every package qualifier is imported (the client unit is explored with its import-deciding helpers followed, so import decisions and uses are correlated). R13b field-shape compatibility: for each codec emitter and each field shape (kind x singular/optional/oneof-member/repeated) that its collector lets through and that the documented rules accept, the emitted methods are type-checked against a synthesized stand-in for protoc-gen-go's struct (field of the shape's Go type). R13c two features that both declare MarshalJSON on one message must be excluded by a conflict check. R13d schema-author free text printed into string literals/comments must be quoted. R13f identifiers used as Go field selectors must come from protogen's GoName. R13k a message or enum type reached through a field (or a method's input/output) is printed in type position as its GoIdent, which protogen qualifies and imports, never by its bare GoName. Not decided: complete type-checking of holed units for arbitrary descriptors beyond the enumerated field-use worlds; TypeScript typing; cross-file duplicate declarations in one Go package."
 	r.Trusted = []string{"go/parser and go/types accept exactly what the Go compiler's front end accepts", "protoc-gen-go's field type mapping (protobuf-go generated-code guide)"}
 	r.Rule("R13a", "every Go variant of every emitted unit parses; the constant runtime type-checks", 20)
 	r.Rule("R13i", "printf-style calls in emitted Go have one verb per argument (go vet printf check)", 10)
@@ -119,6 +120,7 @@ func checkC13(c *Ctx) {
 	r.Rule("R13e", "imports agree with uses in every Go variant", 20)
 	r.Rule("R13c", "no two features emit MarshalJSON for the same message without a conflict check", 12)
 	r.Rule("R13d", "free-text options printed into literals or comments are quoted", 10)
+	r.Rule("R13k", "types reached through a field or a method signature are printed as GoIdent (qualified, imported), never by bare name", 1)
 	r.Rule("R13f", "Go field selectors are spelled with protogen's GoName", 2)
 	r.Rule("R13b", "emitted field uses type-check for every field shape the emitter can be reached with", 20)
 
@@ -304,6 +306,8 @@ func checkC13(c *Ctx) {
 	}
 	unq := map[string]*agg{}
 	sel := map[string]*agg{}
+	bare := map[string]*agg{}
+	okIdent := 0
 	okSel, okQuoted := 0, 0
 	for _, ri := range c.Roots() {
 		if strings.HasSuffix(ri.Suffix, ".yaml") {
@@ -371,6 +375,26 @@ func checkC13(c *Ctx) {
 								unq[k].n++
 							}
 						}
+						// type position in Go code (&T{, *T, []T, map[K]T, new(T)): a message or enum reached through a field
+						// (or a method's input/output) may live in another Go package; only the GoIdent is qualified
+						// and imported by protogen, its bare GoName is not
+						if isGo && !inString && !inComment && si > 0 && l.Segs[si-1].Hole == nil {
+							prev := l.Segs[si-1].Const
+							if strings.HasSuffix(prev, "&") || strings.HasSuffix(prev, "*") || strings.HasSuffix(prev, "]") || strings.HasSuffix(prev, "new(") {
+								ek := eraseIters(sg.Hole.Key)
+								if strings.HasSuffix(strings.TrimRight(before, "*"), "map[") {
+									// map key position: keys are scalars, the message arm of the type helper is unreachable there
+								} else if foreignTypeName.MatchString(ek) {
+									k := fmt.Sprintf("%s %s names the type %s by its bare GoName", pkgShort(ri.Pkg), fnName, ek)
+									if bare[k] == nil {
+										bare[k] = &agg{pos: c.P.Pos(l.Pos), example: holeFree(text)}
+									}
+									bare[k].n++
+								} else if sg.Hole.GoIdent {
+									okIdent++
+								}
+							}
+						}
 						// selector position in Go code: previous const segment ends with "." and we are not in a string/comment
 						if isGo && !inString && !inComment && si > 0 && l.Segs[si-1].Hole == nil && strings.HasSuffix(l.Segs[si-1].Const, ".") {
 							prev := l.Segs[si-1].Const
@@ -400,6 +424,10 @@ func checkC13(c *Ctx) {
 	for _, k := range sortedKeys(sel) {
 		r.Bad("R13f", k, sel[k].pos, "a Go field selector is derived by string case conversion instead of protogen's GoName: for names where the two differ (digits after underscores, leading underscores) the emitted code does not compile (emitted: "+sel[k].example+")", nil)
 	}
+	for _, k := range sortedKeys(bare) {
+		r.Bad("R13k", k, bare[k].pos, "a type that may be declared in another Go package (the message or enum of a field, a method's input or output) is printed by its bare GoName: protogen qualifies and imports only a GoIdent, so for an imported type the emitted file refers to an undefined identifier and does not compile (emitted: "+bare[k].example+")", nil)
+	}
+	r.OKd("R13k", "type references printed as GoIdent", "", map[string]any{"sites": okIdent, "bare": len(bare)})
 	r.OKd("R13f", "field selectors with GoName provenance", "", map[string]any{"sites": okSel})
 
 	// ---------------- R13c duplicate MarshalJSON
@@ -689,3 +717,5 @@ func c13DefUse(c *Ctx) {
 		}
 	}
 }
+
+var foreignTypeName = regexp.MustCompile(`((Field|Fields@|Fields\[\d+\])\.(Message|Enum)|ValueMessage|ElementType|\.Input|\.Output)\.GoIdent\.GoName$`)
